@@ -313,6 +313,12 @@ fn replay_history(idx: u64, b: &Value, out: &mut Out) {
                     let it = autos[&h].iter(&method, &entry, hay);
                     iters.insert(op["it"].as_u64().unwrap(), Live { it, off, method, kind: kinds[&h].clone(), entry });
                 }
+                "arrive" => {
+                    // more bytes of a streaming source have arrived (offset in label units)
+                    let l = iters.get_mut(&op["it"].as_u64().unwrap()).unwrap();
+                    let n = l.off[op["avail"].as_u64().unwrap() as usize];
+                    l.it.limit.as_ref().expect("stream iterator").set(n);
+                }
                 "next" => {
                     let l = iters.get_mut(&op["it"].as_u64().unwrap()).unwrap();
                     let (m, pulled, _, _) = l.it.step();
@@ -328,7 +334,7 @@ fn replay_history(idx: u64, b: &Value, out: &mut Out) {
                             "expected": exp, "got": got, "behaviour": b}));
                         return;
                     }
-                    if l.entry == "iter" {
+                    if l.entry == "iter" || l.entry == "stream" {
                         let exp_pulled = l.off[op["pulled"].as_u64().unwrap() as usize] as i64;
                         if pulled != exp_pulled {
                             out.mismatches.push(json!({"idx": idx, "tags": ["C12"], "what": "bytes pulled from the source",
